@@ -5,9 +5,10 @@
 (* search (grow or make_room, refill), increment_record, and the record set  *)
 (* (positions incl. the stale tail, npos, buffer copy). Each function is     *)
 (* written after the code (post fix: commits), loops as RECURSIVE operators. *)
-(* The source delivers as much as is asked for (chunking and faults are      *)
-(* covered by BufRedux and by trace validation); the policy doubles up to    *)
-(* GrowLimit and then refuses.                                               *)
+(* The source delivers as much as is asked for (chunking is covered by       *)
+(* BufRedux and by trace validation) and may fail once, at its failAt-th     *)
+(* operation (a fill or a real seek); the policy doubles up to GrowLimit and *)
+(* then refuses.                                                             *)
 (*                                                                           *)
 (* MCFastaMachine explores every input up to MaxLen, every capacity in Caps  *)
 (* and every history of calls up to MaxOps, builds for each call the event   *)
@@ -20,9 +21,20 @@ EXTENDS ReaderA
 GrowToL(c, limit) == IF c * 2 <= limit THEN c * 2 ELSE 0
 B0(b, i) == b[i + 1]
 
-\* ---- buffer_redux: fill to capacity (or to the end of the input x)
-FillM(x, s) == LET n == IF s.cap - Len(s.buf) < Len(x) - s.src THEN s.cap - Len(s.buf) ELSE Len(x) - s.src
-               IN [s EXCEPT !.buf = @ \o SubSeq(x, s.src + 1, s.src + n), !.src = @ + n, !.lastfill = n]
+\* ---- the reader's fill_buf(): fill to capacity (or to the end of the input x). The s.failAt-th source
+\*      operation (fills and real seeks are counted in s.nsrc) fails: the buffer is discarded and the
+\*      reader is Finished until the next seek (commit "reading on after an I/O error ...")
+FillM(x, s) ==
+  IF s.nsrc + 1 = s.failAt
+  THEN \* (the source may have delivered part of the data before it failed: s.partial; the reader discards
+       \* the buffer either way)
+       [s EXCEPT !.nsrc = @ + 1, !.ioerr = TRUE, !.st = "Finished", !.buf = <<>>, !.lastfill = 0,
+                 !.src = IF s.partial THEN @ + ((IF s.cap - Len(s.buf) < Len(x) - s.src THEN s.cap - Len(s.buf) ELSE Len(x) - s.src) \div 2) ELSE @,
+                 !.ios = Append(@, [t |-> "r", a |-> s.cap - Len(s.buf), g |-> 0, e |-> "other"])]
+  ELSE LET n == IF s.cap - Len(s.buf) < Len(x) - s.src THEN s.cap - Len(s.buf) ELSE Len(x) - s.src
+       IN [s EXCEPT !.buf = @ \o SubSeq(x, s.src + 1, s.src + n), !.src = @ + n, !.lastfill = n, !.nsrc = @ + 1,
+                    !.ios = Append(@, [t |-> "r", a |-> s.cap - Len(s.buf), g |-> n, e |-> ""])]
+IoRes == [k |-> "io", kind |-> "other", msg |-> <<>>]
 
 \* ---- _search(): scan for the LF that is followed by '>' from search_pos on
 SearchInM(b, sp, sq) ==
@@ -50,14 +62,16 @@ ResumeM(x, limit, s, makeRoom) ==
             ELSE LET k == s.start IN
                  [s EXCEPT !.buf = SubSeq(@, k + 1, Len(@)), !.start = 0, !.spos = @ - k, !.seqpos = [i \in 1..Len(@) |-> @[i] - k]]
   IN IF s1.limit THEN [err |-> "buffer_limit", s |-> [s1 EXCEPT !.limit = FALSE]]
-     ELSE LET r == SearchM(FillM(x, s1)) IN
-          IF r.ok THEN [err |-> "", s |-> r.s] ELSE ResumeM(x, limit, r.s, makeRoom)
+     ELSE LET f == FillM(x, s1) IN
+          IF f.ioerr THEN [err |-> "io", s |-> f]
+          ELSE LET r == SearchM(f) IN
+               IF r.ok THEN [err |-> "", s |-> r.s] ELSE ResumeM(x, limit, r.s, makeRoom)
 
 \* ---- first_byte(): skip blank lines; [found, lnum, pos, byte, s]
 RECURSIVE FirstByteM(_, _, _)
 FirstByteM(x, s, lnum) ==
   LET s1 == FillM(x, s) IN
-  IF s1.lastfill = 0 THEN [found |-> FALSE, lnum |-> lnum, pos |-> 0, byte |-> 0, s |-> s1]
+  IF s1.ioerr \/ s1.lastfill = 0 THEN [found |-> FALSE, lnum |-> lnum, pos |-> 0, byte |-> 0, s |-> s1]
   ELSE LET b == s1.buf
            segs == SplitLF(b)                       \* split(b'\n'): incl. the segment after the last LF
            nb == {k \in 1..Len(segs) : segs[k] # <<>> /\ segs[k] # <<CR>>}
@@ -69,7 +83,8 @@ FirstByteM(x, s, lnum) ==
 \* init(): [res, s] with res in {"ok", "none", "invalid_start"}
 InitM(x, s) ==
   LET fb == FirstByteM(x, s, 0) IN
-  IF ~fb.found THEN [res |-> "none", s |-> [fb.s EXCEPT !.st = "Finished"], line |-> 0, found |-> 0]
+  IF fb.s.ioerr THEN [res |-> "io", s |-> fb.s, line |-> 0, found |-> 0]
+  ELSE IF ~fb.found THEN [res |-> "none", s |-> [fb.s EXCEPT !.st = "Finished"], line |-> 0, found |-> 0]
   ELSE IF fb.byte = GT
   THEN [res |-> "ok", s |-> [fb.s EXCEPT !.start = fb.pos, !.pbyte = @ + fb.pos, !.pline = fb.lnum, !.spos = fb.pos + 1], line |-> 0, found |-> 0]
   ELSE [res |-> "invalid_start", s |-> [fb.s EXCEPT !.st = "Finished"], line |-> fb.lnum, found |-> fb.byte]
@@ -86,12 +101,13 @@ ErrM(k, line, found) == [k |-> k, line |-> line, found |-> found, seq |-> 0, qua
 
 \* ---- next(): [res, s]
 NextM(x, limit, s0) ==
-  LET s == [s0 EXCEPT !.grows = <<>>] IN
+  LET s == [s0 EXCEPT !.grows = <<>>, !.ios = <<>>, !.ioerr = FALSE] IN
   IF s.st = "Finished" THEN [res |-> [k |-> "none"], s |-> s]
   ELSE
   LET pre == CASE s.st = "New" -> LET i == InitM(x, s) IN
                                   IF i.res = "ok" THEN [stop |-> FALSE, res |-> [k |-> "none"], s |-> [i.s EXCEPT !.st = "Parsing"]]
                                   ELSE IF i.res = "none" THEN [stop |-> TRUE, res |-> [k |-> "none"], s |-> i.s]
+                                  ELSE IF i.res = "io" THEN [stop |-> TRUE, res |-> IoRes, s |-> i.s]
                                   ELSE [stop |-> TRUE, res |-> ErrM("invalid_start", i.line, i.found), s |-> i.s]
                [] s.st = "Positioned" -> [stop |-> FALSE, res |-> [k |-> "none"], s |-> [s EXCEPT !.st = "Parsing"]]
                [] s.st = "Parsing" -> [stop |-> FALSE, res |-> [k |-> "none"], s |-> IncrementM(s)]
@@ -100,7 +116,7 @@ NextM(x, limit, s0) ==
      ELSE LET s1 == IF pre.s.st # "Incomplete" THEN SearchM(pre.s).s ELSE pre.s IN
           IF s1.st = "Incomplete"
           THEN LET r == ResumeM(x, limit, s1, TRUE) IN
-               IF r.err # "" THEN [res |-> [k |-> r.err, msg |-> <<>>], s |-> r.s]
+               IF r.err # "" THEN [res |-> (IF r.err = "io" THEN IoRes ELSE [k |-> r.err, msg |-> <<>>]), s |-> r.s]
                ELSE LET s2 == IF r.s.st # "Finished" THEN [r.s EXCEPT !.st = "Parsing"] ELSE r.s IN
                     [res |-> RecM(s2.buf, s2.start, s2.seqpos), s |-> s2]
           ELSE [res |-> RecM(s1.buf, s1.start, s1.seqpos), s |-> s1]
@@ -128,35 +144,41 @@ SetLoopM(x, limit, s, pos, isNew, n) ==
             IN IF n > 0 /\ Len(pos1) = n THEN [err |-> "", s |-> s2, pos |-> pos1] ELSE SetLoopM(x, limit, s2, pos1, isNew, n)
 \* rset: [buf, positions (with stale tail), npos]
 FillSetM(x, limit, s0, rset, n) ==
-  LET s == [s0 EXCEPT !.grows = <<>>]
+  LET s == [s0 EXCEPT !.grows = <<>>, !.ios = <<>>, !.ioerr = FALSE]
       fail(res, s1) == [res |-> res, s |-> s1, rset |-> [rset EXCEPT !.npos = 0]]
   IN IF s.st = "Finished" THEN fail([k |-> "none"], s)
      ELSE
      LET pre == CASE s.st = "New" -> LET i == InitM(x, s) IN
                                      IF i.res = "ok" THEN [stop |-> FALSE, res |-> [k |-> "none"], s |-> [i.s EXCEPT !.st = "Positioned"]]
                                      ELSE IF i.res = "none" THEN [stop |-> TRUE, res |-> [k |-> "none"], s |-> i.s]
+                                     ELSE IF i.res = "io" THEN [stop |-> TRUE, res |-> IoRes, s |-> i.s]
                                      ELSE [stop |-> TRUE, res |-> ErrM("invalid_start", i.line, i.found), s |-> i.s]
                   [] s.st = "Parsing" -> [stop |-> FALSE, res |-> [k |-> "none"], s |-> [IncrementM(s) EXCEPT !.st = "Positioned"]]
                   [] OTHER -> [stop |-> FALSE, res |-> [k |-> "none"], s |-> s]
      IN IF pre.stop THEN fail(pre.res, pre.s)
         ELSE LET r == SetLoopM(x, limit, pre.s, <<>>, TRUE, n) IN
-             IF r.err # "" THEN fail([k |-> r.err, msg |-> <<>>], r.s)
+             IF r.err # "" THEN fail((IF r.err = "io" THEN IoRes ELSE [k |-> r.err, msg |-> <<>>]), r.s)
              ELSE LET k == Len(r.pos)
                       newpos == [i \in 1..(IF k > Len(rset.positions) THEN k ELSE Len(rset.positions)) |->
                                    IF i <= k THEN r.pos[i] ELSE rset.positions[i]]
                   IN [res |-> [k |-> "ok"], s |-> r.s, rset |-> [buf |-> r.s.buf, positions |-> newpos, npos |-> k]]
 SetViewM(rset) == [i \in 1..rset.npos |-> RecM(rset.buf, rset.positions[i].start, rset.positions[i].seqpos)]
 
-\* ---- seek(line, byte) (the scripted source cannot fail here)
+\* ---- seek(line, byte): [res, s]; a failing seek of the source leaves the reader as it was
 SeekM(x, s0, line, byte) ==
-  LET s == [s0 EXCEPT !.grows = <<>>]
+  LET s == [s0 EXCEPT !.grows = <<>>, !.ios = <<>>, !.ioerr = FALSE]
       p == s.start + (byte - s.pbyte)
   IN IF p >= 0 /\ p < Len(s.buf)
-     THEN [s EXCEPT !.pline = line, !.pbyte = byte, !.st = "Positioned", !.spos = p, !.start = p, !.seqpos = <<>>]
-     ELSE FillM(x, [s EXCEPT !.src = IF byte < Len(x) THEN byte ELSE Len(x), !.buf = <<>>, !.pline = line, !.pbyte = byte,
-                              !.st = "Positioned", !.spos = 0, !.start = 0, !.seqpos = <<>>])
+     THEN [res |-> [k |-> "ok"], s |-> [s EXCEPT !.pline = line, !.pbyte = byte, !.st = "Positioned", !.spos = p, !.start = p, !.seqpos = <<>>]]
+     ELSE IF s.nsrc + 1 = s.failAt
+     THEN [res |-> IoRes, s |-> [s EXCEPT !.nsrc = @ + 1, !.ios = Append(@, [t |-> "s", a |-> byte, g |-> 0, e |-> "other"])]]
+     ELSE LET f == FillM(x, [s EXCEPT !.nsrc = @ + 1, !.ios = Append(@, [t |-> "s", a |-> byte, g |-> 0, e |-> ""]),
+                                      !.src = IF byte < Len(x) THEN byte ELSE Len(x), !.buf = <<>>, !.pline = line, !.pbyte = byte,
+                                      !.st = "Positioned", !.spos = 0, !.start = 0, !.seqpos = <<>>])
+          IN [res |-> IF f.ioerr THEN IoRes ELSE [k |-> "ok"], s |-> f]
 
-InitReaderM(cap) == [src |-> 0, buf |-> <<>>, cap |-> cap, st |-> "New", start |-> 0, seqpos |-> <<>>, spos |-> 0,
-                     pline |-> 0, pbyte |-> 0, grows |-> <<>>, limit |-> FALSE, lastfill |-> 0]
+InitReaderM(cap, failAt, partial) == [partial |-> partial, src |-> 0, buf |-> <<>>, cap |-> cap, st |-> "New", start |-> 0, seqpos |-> <<>>, spos |-> 0,
+                             pline |-> 0, pbyte |-> 0, grows |-> <<>>, limit |-> FALSE, lastfill |-> 0,
+                             nsrc |-> 0, failAt |-> failAt, ios |-> <<>>, ioerr |-> FALSE]
 EmptySetM == [buf |-> <<>>, positions |-> <<>>, npos |-> 0]
 =============================================================================
